@@ -1,15 +1,16 @@
 """Sidecar contracts for pjrpc/client/retry.py (C09)."""
 from pyvc.api import contract
 from spec.prims import (at_entry, ev_args, ev_callee, ev_kind, ev_outcome, ev_value, exc_listed, is_fresh, iter_pos,
-                        iter_source, old, same, tlen, ufv)
+                        iter_source, old, same, tlen, ufv, ufvt)
 
 from pjrpc.common.common import UNSET
 from pjrpc.common.v20 import BatchResponse, Response
+from pjrpc.client.retry import RetryStrategy
 
 
 def delays_of(backoff):
     """the delay sequence the backoff yields (closed forms are proved per backoff class)"""
-    return ufv('delays', backoff)
+    return ufvt('delays', '=tuple', backoff)
 
 
 @contract('pjrpc.client.retry:Backoff.__call__',
@@ -41,7 +42,7 @@ def code_listed(strategy, response):
 @contract('pjrpc.client.retry:retry.<locals>.wrapped', also=('pjrpc.client.retry:retry_async.<locals>.wrapped',),
           props=['C09', 'C11', 'C19'])
 class RetryWrapped:
-    closure = {'func': '=UserTransport', 'retry_strategy': '=pjrpc.client.retry:RetryStrategy'}
+    closure = {'func': '=UserTransport', 'retry_strategy': 'pjrpc.client.retry:RetryStrategy'}
     raises_only = ('BaseException',)
     modifies = ('$trace',)
     cross_check = False
@@ -87,3 +88,44 @@ class RetryWrapped:
                 and ev_kind(last) == 'call' and same(ev_callee(last), func)
                 and ev_outcome(last) == 'raise' and same(ev_value(last), exc)
                 and (not exc_listed(retry_strategy.exceptions, exc) or n == 2 * len(d) + 1))
+
+
+@contract('pjrpc.client.client:AbstractClient.retried.<locals>.wrapper',
+          also=('pjrpc.client.client:AbstractAsyncClient.retried.<locals>.wrapper',),
+          props=['C09', 'C11'])
+class RetriedWrapper:
+    """C09: a per-request strategy replaces the client-wide one (an explicit None disables retrying); without a
+    strategy the send happens exactly once; with one it is the retry loop's behaviour for THAT strategy."""
+    types = {'self': 'pjrpc.client.client:BaseAbstractClient', 'request': 'any', '_retry_strategy': 'any'}
+    closure = {'method': '=UserTransport'}
+    raises_only = ('BaseException',)
+    modifies = ('$trace',)
+    cross_check = False
+
+    def requires_strategy(self, request, _retry_strategy, method):
+        return ((_retry_strategy is UNSET or _retry_strategy is None or isinstance(_retry_strategy, RetryStrategy))
+                and (self._retry_strategy is None or isinstance(self._retry_strategy, RetryStrategy)))
+
+    def ensures_returned(self, request, _retry_strategy, method, result):
+        eff = self._retry_strategy if _retry_strategy is UNSET else _retry_strategy
+        b = old(tlen())
+        last = tlen() - 1
+        if not (tlen() >= b + 1 and ev_kind(last) == 'call' and same(ev_callee(last), method)
+                and ev_outcome(last) == 'ret' and same(ev_value(last), result)):
+            return False
+        if eff is None:
+            # no strategy: exactly one send, of this request
+            a = ev_args(last)
+            return tlen() == b + 1 and len(a) == 2 and same(a[0], self) and same(a[1], request)
+        return tlen() - b <= 2 * len(delays_of(eff.backoff)) + 1
+
+    def ensures_on_BaseException(self, request, _retry_strategy, method, exc):
+        eff = self._retry_strategy if _retry_strategy is UNSET else _retry_strategy
+        b = old(tlen())
+        last = tlen() - 1
+        if not (tlen() >= b + 1 and ev_kind(last) == 'call' and same(ev_callee(last), method)
+                and ev_outcome(last) == 'raise' and same(ev_value(last), exc)):
+            return False
+        if eff is None:
+            return tlen() == b + 1
+        return tlen() - b <= 2 * len(delays_of(eff.backoff)) + 1
